@@ -680,6 +680,10 @@ fn replay(args: &Args) {
                 Ok(()) => {}
                 Err(p) => out.violation("*", "subscription-panics", p, b.clone()),
             },
+            Some("flood") => match catch(|| replay_flood(&env, &mut mint, &mut out, b, &mut rng)) {
+                Ok(()) => {}
+                Err(p) => out.violation("*", "subscription-panics", p, b.clone()),
+            },
             _ => {
                 eprintln!("unknown behaviour kind: {b}");
                 std::process::exit(2);
@@ -687,6 +691,87 @@ fn replay(args: &Args) {
         }
     }
     out.write(args);
+}
+
+/// A long run of items the subscription has to skip, all queued before the task is polled, with one
+/// valid message behind them (and, with `over` > 0, more deliveries than the channel holds: the
+/// receiver sees Lagged first). The task is then run exactly as an executor would run it.
+fn replay_flood(env: &Env, mint: &mut Mint, out: &mut Outcome, b: &Value, rng: &mut Rng) {
+    let cls = b["cls"].as_str().unwrap();
+    let cap = b["cap"].as_u64().unwrap() as usize;
+    let n = b["n"].as_u64().unwrap() as usize;
+    let over = b["over"].as_u64().unwrap() as usize;
+    let me = SigningKey::from_bytes(&[0xC3; 32]);
+    for parked_first in [false, true] {
+        out.eval();
+        out.mark_distinct(format!("{cls}/{n}/{over}/{parked_first}"));
+        out.count(&format!("flood:n={n}{}", if over > 0 { "+lag" } else { "" }));
+        let mut s = env.stream(&me, cap);
+        s.mark_spawned();
+        if parked_first {
+            let _ = s.turn(); // parks on the empty channel, wake-up registered
+        }
+        let _ = inner_polls();
+        let junk_id = 7000;
+        let valid_id = 7001;
+        let (jorig, junk) = mint.variants(env, cls, junk_id, rng, Some(12));
+        let (vorig, mut valid) = mint.variants(env, "intact", valid_id, rng, None);
+        let valid = valid.remove(0);
+        let mut ledger = Ledger::default();
+        ledger.add(junk_id, cls, jorig, &junk[0]);
+        ledger.add(valid_id, "intact", vorig, &valid);
+        // the network is faster than the executor: everything is delivered before the task runs again
+        for k in 0..(over + n) {
+            s.send(junk[k % junk.len()].bytes.clone());
+        }
+        s.send(valid.bytes.clone());
+        let got = run_task(&mut s);
+        let polls = inner_polls();
+        out.count_by("flood-inner-polls", polls as u64);
+        let case = json!({"kind": "flood", "cls": cls, "cap": cap, "n": n, "over": over, "yielded": b["yielded"], "parked_first": parked_first});
+        let mut seen = false;
+        for m in &got {
+            match ledger.judge(mint, s.topic, m) {
+                (id, Judged::Authentic) if id == valid_id => seen = true,
+                (_, Judged::Forged(sig, detail)) => out.violation("C16", &sig, detail, case.clone()),
+                _ => {}
+            }
+        }
+        if !seen {
+            out.violation(
+                "C17",
+                "valid-message-never-yielded",
+                format!(
+                    "{n} items of class {cls}{} were queued in front of a valid message (channel capacity {cap}); the task ran until it \
+                     parked (runnable={}, done={}, {polls} inner polls) and the valid message was never yielded",
+                    if over > 0 { format!(" after {over} overwritten ones (Lagged)") } else { String::new() },
+                    s.runnable(),
+                    s.done
+                ),
+                case,
+            );
+            continue;
+        }
+        if got.len() != 1 {
+            out.violation("C17", "subscription-differs-from-spec", format!("flood yielded {} messages, specification says 1", got.len()), case.clone());
+        }
+        // and the subscription is still alive afterwards
+        let (porig, mut probe) = mint.variants(env, "intact", valid_id + 1, rng, None);
+        let probe = probe.remove(0);
+        let mut pl = Ledger::default();
+        pl.add(valid_id + 1, "intact", porig, &probe);
+        s.send(probe.bytes);
+        if !run_task(&mut s).iter().any(|m| matches!(pl.judge(mint, s.topic, m), (_, Judged::Authentic))) {
+            out.violation(
+                "C17",
+                "valid-message-never-yielded",
+                format!("after a flood of {n} x {cls} and the valid message behind it, the next valid message was never yielded"),
+                case,
+            );
+        } else {
+            out.sample(case);
+        }
+    }
 }
 
 /// (result, id) of a spec call: "yield" id | "parked" | "done"
@@ -1032,7 +1117,10 @@ fn record(args: &Args) {
     let mut mint = Mint::new(&env);
     let me = SigningKey::from_bytes(&[0xC3; 32]);
     for run in 0..n {
-        let cap = *rng.pick(&[1usize, 2, 4, 8]);
+        // every sixth run is a flood run: a big channel and long runs of skipped items, delivered while
+        // the executor does not get to run
+        let flood_run = run % 6 == 5;
+        let cap = if flood_run { *rng.pick(&[64usize, 128, 256]) } else { *rng.pick(&[1usize, 2, 4, 8]) };
         trace.event(json!({"ev": "Reset", "run": run, "cap": cap}));
         let mut s = env.stream(&me, cap);
         s.mark_spawned();
@@ -1043,10 +1131,33 @@ fn record(args: &Args) {
         let burst = rng.range(1, 4); // how eager the network is compared to the executor
         let mut step = 0;
         let mut broken = false;
-        while step < steps || (s.runnable() && !broken) {
+        // deliveries still to make before the task may run again
+        let mut flood_left = 0usize;
+        let mut flood_cls: Option<&str> = None;
+        let mut floods = if flood_run { rng.range(1, 2) } else { 0 };
+        while step < steps || flood_left > 0 || (s.runnable() && !broken) {
             step += 1;
-            if step > 400 {
+            if step > 2000 {
                 break;
+            }
+            if flood_left == 0 && floods > 0 && !s.closed() && (step >= steps || rng.chance(1, 4)) {
+                floods -= 1;
+                let lens = [1usize, 31, 32, 33, 100, cap - 1, cap + 5];
+                flood_left = *rng.pick(&lens) + 1; // + the valid message behind the run
+                // one class for the whole run, or a different one per item
+                flood_cls = if rng.chance(2, 3) { Some(*rng.pick(&ALL_CLASSES[5..])) } else { None };
+                out.count(&format!("flood-run:{}", flood_left - 1));
+            }
+            if flood_left > 0 {
+                flood_left -= 1;
+                id += 1;
+                let cls = if flood_left == 0 { "intact" } else { flood_cls.unwrap_or_else(|| *rng.pick(&ALL_CLASSES[5..])) };
+                let (orig, item) = mint.one(&env, cls, id, &mut rng);
+                ledger.add(id, cls, orig, &item);
+                out.count(&format!("sent:{cls}"));
+                let woke = s.send(item.bytes);
+                trace.event(json!({"ev": "Send", "cls": cls, "id": id, "woke": woke}));
+                continue;
             }
             let act_net = step <= steps && !s.closed() && rng.below(burst + 1) > 0;
             if act_net {
